@@ -98,13 +98,20 @@ package test
 //@            (forall k mathint :: {br.queue0to1[k]} 0 <= k && k < len(br.queue0to1) ==> br.queue0to1[k] == atlock(br.queue0to1[ite(len(br.queue0to1) >= 2, len(br.queue0to1) - 1 - k, k)]))
 //@   ensures [q1] fromID != 0 ==> len(br.queue1to0) == atlock(len(br.queue1to0)) && sameSeq(br.queue0to1, atlock(br.queue0to1)) &&
 //@            (forall k mathint :: {br.queue1to0[k]} 0 <= k && k < len(br.queue1to0) ==> br.queue1to0[k] == atlock(br.queue1to0[ite(len(br.queue1to0) >= 2, len(br.queue1to0) - 1 - k, k)]))
+// Drop removes n messages starting at offset from one queue (documented usage: the offset lies inside the queue; an
+// offset past the end panics - assumed away at the lock, listed as a usage precondition)
 //@ func (br *Bridge) Drop(fromID int, offset int, n int)
 //@   requires 0 <= offset && n >= 0 && n < 4611686018427387904
-//@   requires [inrange] true
-//@   ensures [q0] fromID == 0 && offset <= atlock(len(br.queue0to1)) ==> sameSeq(br.queue1to0, atlock(br.queue1to0)) &&
+//@   ghost at lock: assume (fromID == 0 ==> offset <= len(br.queue0to1)) && (fromID != 0 ==> offset <= len(br.queue1to0))
+//@   ensures [q0] fromID == 0 ==> sameSeq(br.queue1to0, atlock(br.queue1to0)) &&
 //@            len(br.queue0to1) == atlock(len(br.queue0to1)) - min(n, atlock(len(br.queue0to1)) - offset) &&
 //@            (forall k mathint :: {br.queue0to1[k]} 0 <= k && k < offset ==> br.queue0to1[k] == atlock(br.queue0to1[k])) &&
 //@            (forall k mathint :: {br.queue0to1[k]} offset <= k && k < len(br.queue0to1) ==> br.queue0to1[k] == atlock(br.queue0to1[k + min(n, len(br.queue0to1) - offset)]))
+//@   ensures [q1] fromID != 0 ==> sameSeq(br.queue0to1, atlock(br.queue0to1)) &&
+//@            len(br.queue1to0) == atlock(len(br.queue1to0)) - min(n, atlock(len(br.queue1to0)) - offset) &&
+//@            (forall k mathint :: {br.queue1to0[k]} 0 <= k && k < offset ==> br.queue1to0[k] == atlock(br.queue1to0[k])) &&
+//@            (forall k mathint :: {br.queue1to0[k]} offset <= k && k < len(br.queue1to0) ==> br.queue1to0[k] == atlock(br.queue1to0[k + min(n, len(br.queue1to0) - offset)]))
+//@   ensures [rest] sameSeq(br.stack0, atlock(br.stack0)) && sameSeq(br.stack1, atlock(br.stack1))
 
 //@ func (conn *bridgeConn) Write(b []byte) (n int, err error)
 //@   requires conn.writeDeadline != nil && conn.br != nil && conn.br.conn0 != nil && conn.br.conn1 != nil
@@ -126,5 +133,5 @@ package test
 //@   ensures [count] n == (atlock(len(br.queue0to1)) - len(br.queue0to1)) + (atlock(len(br.queue1to0)) - len(br.queue1to0))
 //@   ensures [rest] sameSeq(br.stack0, atlock(br.stack0)) && sameSeq(br.stack1, atlock(br.stack1))
 
-//@ property C18: inverse, drop, Bridge.Tick, Bridge.Push, Bridge.DropNextNWrites, Bridge.ReorderNextNWrites, Bridge.Reorder, bridgeConn.Write
+//@ property C18: inverse, drop, Bridge.Tick, Bridge.Push, Bridge.DropNextNWrites, Bridge.ReorderNextNWrites, Bridge.Reorder, Bridge.Drop, bridgeConn.Write
 //@ property C10: bridgeConn.Read, bridgeConn.SetReadDeadline
